@@ -194,15 +194,16 @@ def validate_executions(execs, wd, relax=(), oracle=False, batch_lines=4000, job
 # evidence / reporting
 # ------------------------------------------------------------------------------------------------
 def write_evidence(pid, tier_, level, coverage, assumptions, wall, violations):
-    os.makedirs(os.path.join(VERIF, 'evidence'), exist_ok=True)
+    evd = os.environ.get('VERIF_EVIDENCE_DIR') or os.path.join(VERIF, 'evidence')   # (the seed sweep writes elsewhere)
+    os.makedirs(evd, exist_ok=True)
     ev = dict(property_id=pid, tier=tier_, seed=seed(), level=level, coverage=coverage,
               assumptions=assumptions, wall_s=round(wall, 2), violations=violations)
-    with open(os.path.join(VERIF, 'evidence', pid + '.json'), 'w') as f:
+    with open(os.path.join(evd, pid + '.json'), 'w') as f:
         json.dump(ev, f, indent=1, default=str)
 
 
 def save_replay(pid, name, exe, extra=None):
-    d = os.path.join(VERIF, 'replays')
+    d = os.path.join(os.environ.get('VERIF_EVIDENCE_DIR') or VERIF, 'replays')
     os.makedirs(d, exist_ok=True)
     path = os.path.join(d, '%s-%s.json' % (pid, name))
     json.dump(dict(property=pid, variant=exe.variant, alloc=exe.alloc, fill=exe.fill, label=exe.label,
